@@ -153,5 +153,13 @@ def run(ctx):
     writers = {fn.qname for fn, st, v, t in attr_stores(ctx.repo, "port_pressure") if not fn.file.startswith("osaca/data/")}
     allowed = {"ArchSemantics.assign_tp_lt", "ArchSemantics._handle_instruction_found", "ArchSemantics.assign_optimal_throughput",
                "ArchSemantics.set_hidden_loads", "InstructionForm.__init__", "InstructionForm.port_pressure", "MachineModel.set_instruction"}
+    # a new helper that was expanded into an allowed writer is that writer's code (osaca_sa/inline.py)
+    callers_of = {}
+    for caller, helper in getattr(ctx.repo, "inlined", []):
+        callers_of.setdefault(helper, set()).add(caller)
+    for _ in range(3):
+        for h, cs in callers_of.items():
+            if h in writers and all(c in allowed for c in cs):
+                allowed.add(h)
     ctx.check(writers <= allowed, "P6", "writers of port_pressure: %s" % sorted(writers), "",
               "port_pressure is also written by %s" % sorted(writers - allowed), "osaca", "port_pressure writers")
